@@ -63,6 +63,9 @@ func tryReplay(w *world, o *vc.OblResult, ex *vc.Exec, rp *Replay) {
 		ex2.RevealAll = true
 		ex2.SmallLen = small
 		ex2.ReplayInline = at.inline
+		if at.inline > 0 {
+			ex2.ReplayDeadline = time.Now().Add(20 * time.Second)
+		}
 		tg := time.Now()
 		ex2.Generate()
 		if at.inline > 0 {
